@@ -1,5 +1,5 @@
 (** C15 — download policies persist and decide downloads exactly as specified. *)
-From ID Require Import Model.StoreOps Proofs.StoreFacts Proofs.PolicyFacts Base.BytesFacts Proofs.CapFacts Proofs.SettingsFacts.
+From ID Require Import Model.StoreOps Proofs.StoreFacts Proofs.PolicyFacts Base.BytesFacts Proofs.CapFacts Proofs.SettingsFacts Model.Actor Model.Replica Proofs.ActorFacts Proofs.FlagFacts Proofs.EventFacts Proofs.FsPutFacts Proofs.RefineFacts.
 
 Theorem C15_get_after_set : forall T ns p,
   get_policy (set_policy T (tbl_insert N.compare ns p (t_policy T))) ns = p.
@@ -51,6 +51,16 @@ Theorem C15_history_keeps_policy : forall ks EH MF CAP ops s ns,
   get_policy (s_tables (fold_left (fun s o => fst (store_step ks EH MF CAP s o)) ops s)) ns = get_policy (s_tables s) ns.
 Proof. exact history_keeps_policy. Qed.
 
+(** the download flag of a remote insert event through the store handle is exactly what the policy
+    stored for the document says for the entry's key (single-entry path; for reconciliation messages
+    the same is part of [C12_reconciliation_events]) *)
+Theorem C15_remote_event_flag_is_policy : forall ks EH MF CAP mss split s ns e ok from st now r,
+  aget s ns = Some r -> ar_sync r = true ->
+  let '(s', reply, d) := astep ks EH MF CAP mss split s (AInsertRemote ns e ok from st now) in
+  reply = AOk ->
+  d = map (fun c => (c, RemoteInsert e from (policy_matches (get_policy (a_tables s) ns) (e_key e)) st)) (live_of s ns).
+Proof. exact remote_insert_event_flag. Qed.
+
 Print Assumptions C15_get_after_set.
 Print Assumptions C15_set_touches_only_named.
 Print Assumptions C15_set_requires_document.
@@ -62,3 +72,4 @@ Print Assumptions C15_is_prefix_meaning.
 Print Assumptions C15_filter_text_roundtrip.
 Print Assumptions C15_survives_reopen.
 Print Assumptions C15_history_keeps_policy.
+Print Assumptions C15_remote_event_flag_is_policy.
